@@ -7,6 +7,7 @@ model (`Model/Encoder.lean`):
         let place = encoder.place::<u16>()?;
         b(encoder)?;
         let len = encoder.len_since_place(&place);
+        assert!(len <= u16::MAX as usize);
         place.replace(encoder, len as u16)?;
 -/
 import HickoryVerif.Model.Encoder
@@ -28,7 +29,10 @@ def lenPrefixed (body : Enc → ERes Unit) (e : Enc) : ERes Unit :=
     match body e1 with
     | .ok _ e2 =>
       match e2.lenSincePlace start 2 with
-      | .ok len => e2.placeReplace start 2 (fun x => x.emitU16 len)
+      | .ok len =>
+        -- assert!(len <= u16::MAX as usize);
+        if len > 65535 then .panic "Record::emit:assert(len<=u16::MAX)"
+        else e2.placeReplace start 2 (fun x => x.emitU16 len)
       | .err => .panic "unreachable"
       | .panic s => .panic s
     | .err k e2 => .err k e2
